@@ -509,6 +509,12 @@ def MState.step (m : MState) (st : IStep) : MState :=
       | none => m
     | _ => m
   let m := m.registry st
+  -- C04: every message the server sends carries its time (the receive function the clients are built on refuses one
+  -- that does not): an answer without it never reaches the requester
+  let m := st.extra.foldl (fun (m : MState) (x : String) =>
+    match x.splitOn " " with
+    | ["notimestamp", c, kind] => m.bad "C04" "message-without-timestamp" s!"connection {c} was sent a {kind} without a timestamp"
+    | _ => m) m
   -- C20 retention: the number of stored planes a session reports never goes down while the session lives
   let m := match st.ev with
     | .handle c _ _ =>
